@@ -905,7 +905,7 @@ Lemma validate_views h p f :
   f_layers f = arr_of_list (layers_of p) /\ f_tags f = tags_of p /\ f_slices f = slices_of p /\
   f_sprite_ud f = pi_sprite_ud p.
 Proof.
-  unfold validate. intros H.
+  unfold validate; rewrite ?frev_eq. intros H.
   apply rbind_ok in H. destruct H as (parents & _ & H).
   apply rbind_ok in H. destruct H as (tss & _ & H).
   apply rbind_ok in H. destruct H as (u & _ & H).
@@ -1468,7 +1468,7 @@ Qed.
 Theorem validate_cel_views h p f :
   validate h p = Ok f -> forall fr l, cel_same (fcel_of f fr l) (cel_of p fr l).
 Proof.
-  unfold validate. intros H.
+  unfold validate; rewrite ?frev_eq. intros H.
   apply rbind_ok in H. destruct H as (parents & _ & H).
   apply rbind_ok in H. destruct H as (tss & _ & H).
   apply rbind_ok in H. destruct H as (u & _ & H).
